@@ -608,9 +608,14 @@ theorem createTemp_res (w : World) (dir : Nat) (cs : List Chunk) :
   simp only [csum_cons, csum_nil, cres_file, createTemp]
   cases k <;> simp [Fd.isOpen] <;> split <;> omega
 
+/-- the chunk list after the directory loop: a new temp chunk if mkostemp() succeeded -/
+def withTemp (cs : List Chunk) : Option Nat → List Chunk
+  | some fid => cs ++ [.file fid 0 0 true .rw]
+  | none => cs
+
 theorem mkstempDirs_res {fuel : Nat} {w : World} {idx : Nat} {w' : World} {idx' : Nat} {r : Option Nat}
     (cs : List Chunk) (h : mkstempDirs fuel w idx = (w', idx', r)) :
-    Conserve w cs w' (match r with | some fid => cs ++ [.file fid 0 0 true .rw] | none => cs) := by
+    Conserve w cs w' (withTemp cs r) := by
   induction fuel generalizing w idx with
   | zero =>
     simp only [mkstempDirs, Prod.mk.injEq] at h
@@ -665,7 +670,8 @@ theorem closeLast_res {w : World} {q : Cq} {fid off len : Nat} {t : Bool} {fd : 
     Conserve w q.chunks (w.closeFd fid) (setLast q.chunks (.file fid off len t .none)) := by
   intro k f
   rw [csum_setLast k f _ hl, wres_closeFd, cres_file, cres_file]
-  by_cases hf : fid = f <;> cases k <;> simp [Fd.isOpen, ho, hf] <;> omega
+  have hn : Fd.none.isOpen = false := rfl
+  by_cases hf : fid = f <;> cases k <;> simp [hn, ho, hf] <;> omega
 
 theorem getAppendTempfile_res {w : World} {q : Cq} {w' : World} {q' : Cq} {ok : Bool}
     (h : getAppendTempfile w q = (w', q', ok)) : CStep w q (w', q') := by
@@ -752,5 +758,232 @@ theorem mtLoop_res (fuel : Nat) (w : World) (q : Cq) (d : Bytes) :
       ((((popW_res w1).conserve _).trans (tempfileErr_res ht)).trans ih)
   | case11 fuel w q d w1 q1 hg h0 p he w2 q2 ht =>
     exact Conserve.trans (getAppendTempfile_res hg) (((popW_res w1).conserve _).trans (tempfileErr_res ht))
+
+/-- chunkqueue_to_tempfiles() conserves -/
+def ToTempRes (toTemp : World → Cq → World × Cq × Bool) : Prop :=
+  ∀ w q, Conserve w q.chunks (toTemp w q).1 (toTemp w q).2.1.chunks
+
+theorem cqmemPartial_res {toTemp : World → Cq → World × Cq × Bool} (ht : ToTempRes toTemp)
+    (w : World) (dest : Cq) (wr : Nat) :
+    Conserve w dest.chunks (cqmemPartial toTemp w dest wr).w (cqmemPartial toTemp w dest wr).dest.chunks := by
+  unfold cqmemPartial
+  split
+  · rename_i c hl
+    dsimp only
+    refine Conserve.trans ?_ (ht _ _)
+    have h1 : Conserve w (dest.chunks.dropLast ++ [c]) (mwLoop w dest.chunks.dropLast wr).1
+        ((mwLoop w dest.chunks.dropLast wr).2 ++ [c]) := (mwLoop_res w dest.chunks.dropLast wr).frame_right [c]
+    rw [← split_last hl] at h1
+    refine h1.trans (Conserve.of_csum (SameRes.refl _) fun k f => ?_)
+    simp only [markWritten, csum_cons, csum_append, csum_nil]
+    omega
+  · exact Conserve.refl w _
+
+theorem cqmemWritten_res {toTemp : World → Cq → World × Cq × Bool} (ht : ToTempRes toTemp)
+    (w : World) (dest : Cq) (dlen wr : Nat) :
+    Conserve w dest.chunks (cqmemWritten toTemp w dest dlen wr).w
+      (cqmemWritten toTemp w dest dlen wr).dest.chunks := by
+  unfold cqmemWritten
+  split
+  · exact Conserve.refl w _
+  · split
+    · exact cqmemPartial_res ht w dest wr
+    · exact mwLoop_res w dest.chunks dlen
+
+theorem cqmemWrite_res {toTemp : World → Cq → World × Cq × Bool} (ht : ToTempRes toTemp)
+    (w : World) (dest : Cq) (dbytes sbytes : Bytes) :
+    Conserve w dest.chunks (cqmemWrite toTemp w dest dbytes sbytes).w
+      (cqmemWrite toTemp w dest dbytes sbytes).dest.chunks := by
+  unfold cqmemWrite
+  dsimp only
+  have hp := (popW_res w).conserve dest.chunks
+  split
+  · exact (hp.trans (writeGrow_res _ dest _ _)).trans (cqmemWritten_res ht _ _ _ _)
+  · exact (hp.trans (writeGrow_res _ dest _ _)).trans (cqmemWritten_res ht _ _ _ _)
+  · exact hp
+  · exact hp.trans (tempfileErr_res (w' := (tempfileErr (popW w).1 dest true).1)
+      (q' := (tempfileErr (popW w).1 dest true).2.1) (r := (tempfileErr (popW w).1 dest true).2.2) rfl)
+  · exact hp.trans (tempfileErr_res (w' := (tempfileErr (popW w).1 dest false).1)
+      (q' := (tempfileErr (popW w).1 dest false).2.1) (r := (tempfileErr (popW w).1 dest false).2.2) rfl)
+
+theorem cqmemPre_res {toTemp : World → Cq → World × Cq × Bool} (ht : ToTempRes toTemp) (w : World) (dest : Cq) :
+    Conserve w dest.chunks (cqmemPre toTemp w dest).1 (cqmemPre toTemp w dest).2.1.chunks := by
+  unfold cqmemPre
+  dsimp only
+  split
+  · exact ht w dest
+  · exact Conserve.refl w _
+
+theorem cqmem_res {toTemp : World → Cq → World × Cq × Bool} (ht : ToTempRes toTemp)
+    (w : World) (dest : Cq) (src : List Chunk) (len : Nat) :
+    Conserve w dest.chunks (cqmemToTempfile toTemp w dest src len).w
+      (cqmemToTempfile toTemp w dest src len).dest.chunks := by
+  have hp := cqmemPre_res ht w dest
+  unfold cqmemToTempfile
+  split
+  · rename_i w1 dest1 dbytes iov0 heq
+    rw [heq] at hp
+    exact hp
+  · rename_i w1 dest1 dbytes iov0 heq
+    rw [heq] at hp
+    split
+    · exact hp
+    · split
+      · rename_i w2 dest2 hga
+        exact hp.trans (getAppendTempfile_res hga)
+      · rename_i w2 dest2 hga
+        exact (hp.trans (getAppendTempfile_res hga)).trans (cqmemWrite_res ht w2 dest2 dbytes _)
+
+/-- chunkqueue_steal_with_tempfiles() (and its nested instance) conserves -/
+def SwRes (f : World → Cq → Cq → Nat → World × Cq × Cq × Bool) : Prop :=
+  ∀ w dest src len, Conserve w (dest.chunks ++ src.chunks) (f w dest src len).1
+    ((f w dest src len).2.1.chunks ++ (f w dest src len).2.2.1.chunks)
+
+theorem swLoop_res {toTemp : World → Cq → World × Cq × Bool} (ht : ToTempRes toTemp) (fuel : Nat) :
+    SwRes (swLoop toTemp fuel) := by
+  intro w dest src len
+  fun_induction swLoop toTemp fuel w dest src len with
+  | case1 w dest src len => exact Conserve.refl w _
+  | case2 fuel w dest src len hnil => exact Conserve.refl w _
+  | case3 fuel w dest src len c cs hc hm r hneg =>
+    exact (cqmem_res ht w dest src.chunks len).frame_right src.chunks
+  | case4 fuel w dest src len c cs hc hm r hneg m h0 =>
+    exact ((cqmem_res ht w dest src.chunks len).frame_right src.chunks).trans
+      ((markWritten_res r.w src r.rc.toNat).frame_left r.dest.chunks)
+  | case5 fuel w dest src len c cs hc hm r hneg m h0 ih =>
+    exact (((cqmem_res ht w dest src.chunks len).frame_right src.chunks).trans
+      ((markWritten_res r.w src r.rc.toNat).frame_left r.dest.chunks)).trans ih
+  | case6 fuel w dest src len c cs hc hm clen h0 => exact steal_res w dest src clen
+  | case7 fuel w dest src len c cs hc hm clen r h0 ih => exact (steal_res w dest src clen).trans ih
+
+theorem toTempfilesWith_res {inner : World → Cq → Cq → Nat → World × Cq × Cq × Bool} (hi : SwRes inner) :
+    ToTempRes (toTempfilesWith inner) := by
+  intro w dest
+  unfold toTempfilesWith
+  dsimp only
+  have h1 := hi w { dest with chunks := [], bytesIn := dest.bytesIn - dest.length.toNat } dest dest.length.toNat
+  simp only [List.nil_append] at h1
+  refine h1.trans ?_
+  have h2 := (releaseAll_conserve
+    (inner w { dest with chunks := [], bytesIn := dest.bytesIn - dest.length.toNat } dest dest.length.toNat).1
+    (inner w { dest with chunks := [], bytesIn := dest.bytesIn - dest.length.toNat } dest
+      dest.length.toNat).2.2.1.chunks).frame_left
+    (inner w { dest with chunks := [], bytesIn := dest.bytesIn - dest.length.toNat } dest dest.length.toNat).2.1.chunks
+  simpa using h2
+
+theorem toTempStub_res : ToTempRes toTempStub := fun w q => Conserve.refl w _
+theorem swInner_res : SwRes swInner := fun w dest src len => swLoop_res toTempStub_res _ w dest src len
+theorem toTempfiles_res : ToTempRes toTempfiles := toTempfilesWith_res swInner_res
+theorem stealWithTempfiles_res : SwRes stealWithTempfiles :=
+  fun w dest src len => swLoop_res toTempfiles_res _ w dest src len
+
+theorem appendMemToTempfile_res (w : World) (q : Cq) (d : Bytes) :
+    CStep w q ((appendMemToTempfile w q d).1, (appendMemToTempfile w q d).2.1) := by
+  unfold appendMemToTempfile
+  have hpre : Conserve w q.chunks (if firstIsMem q = true then toTempfiles w q else (w, q, true)).1
+      (if firstIsMem q = true then toTempfiles w q else (w, q, true)).2.1.chunks := by
+    split
+    · exact toTempfiles_res w q
+    · exact Conserve.refl w _
+  split
+  · rename_i w1 q1 heq
+    rw [heq] at hpre
+    exact hpre
+  · rename_i w1 q1 heq
+    rw [heq] at hpre
+    exact Conserve.trans hpre (mtLoop_res _ w1 q1 d)
+
+/-! ## the closed system -/
+
+/-- all chunks of the system -/
+def Sys.chunks (s : Sys) : List Chunk := s.q0.chunks ++ s.q1.chunks
+
+theorem sys_single {s s' : Sys} (i : Bool) {w' : World} {q' : Cq}
+    (hs : s' = ({ s with w := w' } : Sys).set i q') (h : CStep s.w (s.get i) (w', q')) :
+    Conserve s.w s.chunks s'.w s'.chunks := by
+  subst hs
+  cases i
+  · exact Conserve.frame_right h s.q1.chunks
+  · exact Conserve.frame_left h s.q0.chunks
+
+theorem sys_pair {s s' : Sys} (i : Bool) {w' : World} {d' o' : Cq}
+    (hs : s' = (({ s with w := w' } : Sys).set i d').set (!i) o')
+    (h : Conserve s.w ((s.get i).chunks ++ (s.get (!i)).chunks) w' (d'.chunks ++ o'.chunks)) :
+    Conserve s.w s.chunks s'.w s'.chunks := by
+  subst hs
+  cases i
+  · exact h
+  · intro k f
+    have := h k f
+    simp only [Sys.chunks, Sys.get, Sys.set, csum_append] at this ⊢
+    simp only [Bool.not_true, if_true, if_false, Bool.false_eq_true] at this ⊢
+    omega
+
+/-- every operation conserves descriptors and temp-file names, whatever the
+    fault schedule: nothing leaks, nothing is released twice -/
+theorem step_conserve (s : Sys) (op : Op) : Conserve s.w s.chunks (step s op).1.w (step s op).1.chunks := by
+  cases op with
+  | appendMem qi d => exact sys_single qi rfl (appendMem_res s.w (s.get qi) d)
+  | appendMemMin qi d => exact sys_single qi rfl (appendMemMin_res s.w (s.get qi) d)
+  | appendBuffer qi d => exact sys_single qi rfl (appendBuffer_res s.w (s.get qi) d)
+  | appendBufferOpen qi d => exact sys_single qi rfl (appendBufferOpen_res s.w (s.get qi) d)
+  | getUseMemory qi req d => exact sys_single qi rfl (getUseMemory_res s.w (s.get qi) req d)
+  | appendFile qi fid off len fd => exact sys_single qi rfl (appendFile_res s.w (s.get qi) fid off len fd)
+  | appendChunkqueue qi =>
+    exact sys_pair (w' := s.w) qi rfl (appendChunkqueue_res s.w (s.get qi) (s.get (!qi)))
+  | appendMemToTempfile qi d => exact sys_single qi rfl (appendMemToTempfile_res s.w (s.get qi) d)
+  | steal qi n => exact sys_pair qi rfl (steal_res s.w (s.get qi) (s.get (!qi)) n)
+  | stealWithTempfiles qi n => exact sys_pair qi rfl (stealWithTempfiles_res s.w (s.get qi) (s.get (!qi)) n)
+  | appendCqRange qi self off len =>
+    cases self
+    · simp only [step, Bool.false_eq_true, ↓reduceIte]
+      exact sys_single qi rfl (rangeLoop_res s.w (s.get qi) (s.get (!qi)).chunks off len)
+    · simp only [step, ↓reduceIte]
+      split
+      · exact Conserve.refl _ _
+      · exact sys_single qi rfl (rangeLoop_res s.w (s.get qi) (s.get qi).chunks off len)
+  | markWritten qi n =>
+    simp only [step]
+    split
+    · exact sys_single qi rfl (markWritten_res s.w (s.get qi) n)
+    · exact Conserve.refl _ _
+  | removeFinished qi => exact sys_single qi rfl (removeFinished_res s.w (s.get qi))
+  | removeEmpty qi => exact sys_single qi rfl (removeEmpty_res s.w (s.get qi))
+  | compactMem qi clen =>
+    simp only [step]
+    split
+    · exact sys_single qi rfl (compactMem_res s.w (s.get qi) clen)
+    · exact Conserve.refl _ _
+  | compactMemOffset qi =>
+    simp only [step]
+    split
+    · exact Conserve.refl _ _
+    · exact sys_single (w' := s.w) qi rfl
+        (Conserve.of_csum (SameRes.refl s.w) (compactMemOffset_csum (s.get qi)))
+  | peekData qi n => exact sys_single qi rfl (peekData_res s.w (s.get qi) n)
+  | readData qi n => exact sys_single qi rfl (readData_res (w := s.w) (q := s.get qi) (n := n) rfl)
+  | readSquash qi => exact sys_single qi rfl (readSquash_res (w := s.w) (q := s.get qi) rfl)
+  | reset qi => exact sys_single qi rfl (reset_res s.w (s.get qi))
+
+theorem run_conserve (s : Sys) (ops : List Op) : Conserve s.w s.chunks (run s ops).w (run s ops).chunks := by
+  induction ops generalizing s with
+  | nil => exact Conserve.refl _ _
+  | cons op ops ih => exact (step_conserve s op).trans (ih (step s op).1)
+
+
+/-- a well-accounted system: every open descriptor is held by a chunk, and
+    apart from the `base f` names that exist independently of the queues (1 for
+    a source file) a file's name exists iff a temp chunk owns it -/
+def Acct (base : Nat → Int) (s : Sys) : Prop :=
+  ∀ f, (s.w.files f).nfd = csum false f s.chunks ∧ (s.w.files f).nlink = base f + csum true f s.chunks
+
+theorem Acct.of_conserve {base : Nat → Int} {s s' : Sys} (h : Acct base s)
+    (hc : Conserve s.w s.chunks s'.w s'.chunks) : Acct base s' := by
+  intro f
+  have h0 := hc false f
+  have h1 := hc true f
+  obtain ⟨a, b⟩ := h f
+  simp only [wres, Bool.false_eq_true, if_false, if_true] at h0 h1
+  exact ⟨by omega, by omega⟩
 
 end LtVerif.Cq
